@@ -171,11 +171,11 @@ func judgeValid(c *hx.Ctx, g XZCfg, run XZRun, replay any) (ref.XZResult, bool) 
 // the cross product deterministically from the seed.
 func xzConfig(r *rand.Rand, big bool) XZCfg {
 	props := [][3]int{{3, 0, 2}, {0, 0, 0}, {4, 0, 4}, {0, 4, 0}, {2, 2, 2}, {1, 3, 1}, {3, 1, 3}, {0, 0, 4}, {4, 0, 0}}
-	dicts := []int{4096, 4097, 65536 - 273, 65536, 1 << 20}
+	dicts := []int{4096, 4097, 5000, 6144, 32768, 49152, 65536 - 273, 65536, 100000, 1 << 20}
 	if big {
 		dicts = append(dicts, 8<<20, 3<<20+1)
 	}
-	bufs := []int{273, 274, 4096, 65536}
+	bufs := []int{273, 274, 4096, 8192, 49152, 65536}
 	blocks := []int64{0, 1, 2, 7, 4096, 65536, 65537, 100000, 1 << 40}
 	checks := []int{0, 1, 4, 10, -1}
 	p := props[r.Intn(len(props))]
